@@ -531,15 +531,25 @@ fn history(family: &str, seed: u64, idx: usize, thorough: bool, out: &mut impl W
         return conn_history(seed, idx, thorough, out);
     }
     let mut rng = Rng::new(seed.wrapping_mul(1_000_003) ^ (idx as u64) ^ 0x5E55);
-    let nclients = match rng.below(10) {
+    let mut nclients = match rng.below(10) {
         0..=4 => 1,
         5..=7 => 2,
         _ => 3,
     } as u32;
+    // chains of hand-overs (the same peer hosts, is demoted and hosts again): two peers, three to five promotions
+    let promo_chain = family == "promo" && idx % 4 == 2;
+    if promo_chain {
+        nclients = 1;
+    }
     let v6 = rng.chance(1, 5);
     let mut cfg_rng = rng.fork();
+    let mut cfg_calls = 0usize;
+    // one fix history in four: the host replicates light kinds that some clients never set up themselves (what lands on a peer
+    // is decided by its type registry, not by its own `sync_component` calls; the crate's example client is such a peer)
+    let fix_uneven = family == "fix" && idx % 4 == 3;
     let mut cfg_for = |family: &str| -> PeerCfg {
         let mut cfg = PeerCfg::default();
+        cfg_calls += 1;
         if family == "filter" {
             // every subset of registered types, every on/off combination of the three switches, per peer
             cfg.registered = [Ty::A, Ty::B, Ty::E, Ty::V, Ty::U].iter().cloned().filter(|_| cfg_rng.chance(1, 2)).collect();
@@ -578,6 +588,12 @@ fn history(family: &str, seed: u64, idx: usize, thorough: bool, out: &mut impl W
         }
         if family == "fix" {
             cfg.registered = vec![Ty::A, Ty::Transform, Ty::Visibility, Ty::PointLight, Ty::SpotLight, Ty::DirLight];
+            if fix_uneven && (cfg_calls == 2 || (cfg_calls > 2 && cfg_rng.chance(1, 2))) {
+                cfg.registered = vec![Ty::A, Ty::Transform, Ty::Visibility];
+                if cfg_rng.chance(1, 3) {
+                    cfg.registered.push(*cfg_rng.pick(&[Ty::PointLight, Ty::SpotLight, Ty::DirLight]));
+                }
+            }
         }
         cfg
     };
@@ -1151,7 +1167,7 @@ fn history(family: &str, seed: u64, idx: usize, thorough: bool, out: &mut impl W
         }
         "fix" => {
             const KINDS: [Ty; 5] = [Ty::Transform, Ty::Visibility, Ty::PointLight, Ty::SpotLight, Ty::DirLight];
-            let origin = c.any_peer();
+            let origin = if fix_uneven { 0 } else { c.any_peer() };
             let e = c.fresh();
             c.s.spawn(origin, e, true, &[], None);
             let d = c.drain(40);
@@ -1207,7 +1223,7 @@ fn history(family: &str, seed: u64, idx: usize, thorough: bool, out: &mut impl W
             for k in kinds.clone() {
                 let off = c.rng.below(4);
                 c.lockstep(off);
-                let writer = if c.rng.chance(2, 3) { origin } else { c.any_peer() };
+                let writer = if fix_uneven || c.rng.chance(2, 3) { origin } else { c.any_peer() };
                 c.s.trace.push(json!({"ev":"phase","writer":writer,"h":e,"ty":k.name()}));
                 for _ in 0..c.rng.range(1, 3) {
                     n += 1;
@@ -1220,7 +1236,8 @@ fn history(family: &str, seed: u64, idx: usize, thorough: bool, out: &mut impl W
         }
         "skin" => {
             // joints: synchronized entities from random origins; peers' local ids are shifted differently
-            let nj = c.rng.range(0, 5);
+            // one history in six has a big skeleton (bevy renders up to 256 joints per skin): a payload of 17 - 23 kB
+            let nj = if idx % 6 == 4 { c.rng.range(190, 256) } else { c.rng.range(0, 5) };
             let mut joints = vec![];
             for _ in 0..nj {
                 let p = c.any_peer();
@@ -1238,7 +1255,7 @@ fn history(family: &str, seed: u64, idx: usize, thorough: bool, out: &mut impl W
             let mut prev_list: Option<Vec<u32>> = None;
             for k in 0..updates {
                 // arbitrary order, repeats allowed; sometimes only the bind poses change (same joints)
-                let len = if joints.is_empty() { 0 } else { c.rng.below(6) };
+                let len = if joints.is_empty() { 0 } else if joints.len() > 100 { c.rng.range(186, joints.len()) } else { c.rng.below(6) };
                 let list: Vec<u32> = match (&prev_list, c.rng.chance(1, 2)) {
                     (Some(l), true) => l.clone(),
                     _ => (0..len).map(|_| *c.rng.pick(&joints)).collect(),
@@ -1378,9 +1395,9 @@ fn history(family: &str, seed: u64, idx: usize, thorough: bool, out: &mut impl W
                 let d = c.drain(80);
                 c.s.trace.push(json!({"ev":"drain","quiescent":d.0,"rounds":d.1}));
             }
-            let promotions = if c.rng.chance(1, 4) { 2 } else { 1 };
+            let promotions = if promo_chain { c.rng.range(3, 5) } else if c.rng.chance(1, 4) { 2 } else { 1 };
             let mut host: u32 = 0;
-            for _ in 0..promotions {
+            for round in 0..promotions {
                 // every instance listens on its own port once it becomes host (all peers share one ip here)
                 for p in 0..c.peers() {
                     let port = bsharness::session::free_udp_port(c.s.ip);
@@ -1452,8 +1469,8 @@ fn history(family: &str, seed: u64, idx: usize, thorough: bool, out: &mut impl W
                 }
                 let n1 = c.rng.range(1, 3);
                 epochs(&mut c, n1);
-                // somebody joins the new host
-                if c.rng.chance(1, 2) {
+                // somebody joins the new host (in a chain only behind the last hand-over: with a third peer the next one is D7's)
+                if c.rng.chance(1, 2) && (!promo_chain || round + 1 == promotions) {
                     let shift = c.rng.below(5);
                     let id = c.s.add_client(cfg_for(family), shift);
                     c.nclients += 1;
